@@ -1,6 +1,6 @@
 """C14 bounded stand-in: injection onto RAW written by the real record(): decode round trip, framing, stationary gain."""
 from base import *
-import numpy as np
+import numpy as np, glob
 import setigen as stg
 from setigen.voltage import raw_utils
 
@@ -68,7 +68,20 @@ for it in range(R.n(8, 100)):
                                        requantizer=stg.voltage.ComplexQuantizer(target_fwhm=32 if nbits == 8 else 6, num_bits=nbits), start_chan=1, num_chans=nc,
                                        block_size=bs, blocks_per_file=bpf, num_subblocks=2)
     stem_in = os.path.join(R.tmp, f'in{case}')
-    be.record(stem_in, num_blocks=N, length_mode='num_blocks', header_dict={'DIRECTIO': directio}, load_template=rng.random() < 0.5, verbose=False)
+    tmpl = rng.random() < 0.5
+    be.record(stem_in, num_blocks=N, length_mode='num_blocks', header_dict={'DIRECTIO': directio}, load_template=tmpl, verbose=False)
+    if it % 3 == 0:
+        # the same recording with filler cards so that the unpadded header is already a multiple of 512 bytes (32 cards incl. END)
+        ncards = len(stg.voltage.raw_utils.read_header(stem_in + '.0000.raw'))
+        fill = {f'FILL{q:02d}': q for q in range((-(ncards + 1)) % 32)}
+        for fn_old in glob.glob(stem_in + '.*.raw'):
+            os.unlink(fn_old)
+        src = source(nant, npol, case)
+        be = stg.voltage.RawVoltageBackend(src, digitizer=stg.voltage.RealQuantizer(num_bits=8), filterbank=stg.voltage.PolyphaseFilterbank(num_taps=TAPS, num_branches=NB),
+                                           requantizer=stg.voltage.ComplexQuantizer(target_fwhm=32 if nbits == 8 else 6, num_bits=nbits), start_chan=1, num_chans=nc,
+                                           block_size=bs, blocks_per_file=bpf, num_subblocks=2)
+        be.record(stem_in, num_blocks=N, length_mode='num_blocks', header_dict=dict(fill, DIRECTIO=directio), load_template=tmpl, verbose=False)
+        c = dict(c, header_bytes=80 * (ncards + 1 + len(fill)))
     inp = blocks_of(stem_in, nant, nc, npol, nbits)
     # --- decode of every input block by the library
     src2 = source(nant, npol, case + 1000, tone=2.3e5, noise=False)
